@@ -22,4 +22,12 @@ PROPS = {
         "note": "payload alphabet of fixed byte strings; tmpfs; native/cgo difference is C02/C07's subject",
         "design_ref": "§4 C01",
     },
+    "C08": {
+        "level": "exploration",
+        "env": {"GOGC": "off"},  # the engine calls runtime.GC() itself several times per query; avoids scavenger churn
+        "technique": "exhaustive enumeration of (database shape x query type x condition x direction filter x time range x interface argument x labels x low-mem) with <=2 (thorough 3) deviating dimensions, each executed on the real query engine over a database written by the real DBWriter, compared with a Go-map reference aggregation",
+        "text": "For 4 database shapes (IPv4-only, IPv6-only, mixed including an IPv6 address whose leading bytes alias an IPv4 one, and an IPv6 address with 12 trailing zero bytes; two interfaces, three days across a month boundary) and 20 query types, every combination of at most two (thorough: three) non-default choices among time label, 4 interface arguments, 22 conditions (leaves, !=, networks, and/or/not, v4|v6 and ip|non-ip disjunctions), 5 direction filters, 40/120 (first,last) pairs over 15 boundary instants, and low-memory mode is run through engine.QueryRunner.Run; rows (as a multiset per interface), Summary.Totals and Hits.Total must equal a reference that filters, groups in a Go map and sums. The condition grammar itself is explored exhaustively by C09/C10; here conditions are a fixed list.",
+        "note": "worker count pinned to 2 (C11 varies it); conditions are a hand-written list of (text, predicate) pairs; engine labels rows per interface always and so does the reference",
+        "design_ref": "§4 C08",
+    },
 }
